@@ -1601,6 +1601,18 @@ func ruleListDiff(w *World, r *Report, pkg *ssa.Package) {
 					"the block that replaces the element under one cursor by the element under the other can be reached without the same-kind test having answered false: on those paths containers of the same kind at the same position are replaced wholesale instead of being diffed recursively")
 			}
 		}
+		// ... and a position is moved into a hunk on its own only where there is nothing to pair it with:
+		// every append of list[cursor] to Remove (Add) is justified either by a dominating branch whose
+		// condition reads the *other* side's cursor and not this one (other side exhausted, or standing on
+		// a common element), or by the false outcome of the same-kind test *for the cursors as they stand*
+		// (no cursor is stored on any path from that outcome to the append). A drain loop behind one
+		// same-kind test (seeded change C06-r) replaces same-kind containers further down the tail.
+		for _, wf := range walkSet {
+			if wf == fnDiff {
+				continue
+			}
+			oneSidedMoves(w, r, wf)
+		}
 	}
 	// same-kind test looks at kinds only
 	{
@@ -1839,6 +1851,7 @@ func ruleIdentProv(w *World, r *Report, pkg *ssa.Package, tag string) {
 		recv := fn.Params[0]
 		n := 0
 		bad := ""
+		stale := ""
 		allInstrs(fn, func(in ssa.Instruction) {
 			mu, ok := in.(*ssa.MapUpdate)
 			if !ok {
@@ -1854,7 +1867,47 @@ func ruleIdentProv(w *World, r *Report, pkg *ssa.Package, tag string) {
 			if !d.HasRoot(mu.Value, recv) {
 				bad = w.Pos(mu.Pos())
 			}
+			// ... and of this member only: the map the identity is collected in starts empty for every
+			// candidate — made here, or handed in by the search loop from an allocation inside that loop.
+			// A map made once before the loop keeps the entries of earlier candidates for the keys this
+			// candidate lacks (seeded change C08-c).
+			switch m := strip(mu.Map).(type) {
+			case *ssa.MakeMap:
+			case *ssa.Call:
+				if !freshMapValue(m, 0) {
+					stale = "the identity map written at " + w.Pos(mu.Pos()) + " comes from a call that does not make a new map on every return"
+				}
+			case *ssa.Parameter:
+				idx := -1
+				for i, p := range fn.Params {
+					if p == m {
+						idx = i
+					}
+				}
+				allInstrs(setPatch, func(in2 ssa.Instruction) {
+					c2, ok := in2.(*ssa.Call)
+					if !ok || staticCallee(c2) != fn || idx < 0 {
+						return
+					}
+					args := c2.Call.Args
+					if idx >= len(args) {
+						return
+					}
+					av := strip(args[idx])
+					isMk := freshMapValue(av, 0)
+					l := innermostLoop(loopsOf(setPatch), c2.Block())
+					mkIn, _ := av.(ssa.Instruction)
+					if !isMk || (l != nil && (mkIn == nil || !l.Blocks[mkIn.Block()])) {
+						stale = "the identity map written at " + w.Pos(mu.Pos()) + " is handed in by the search at " + w.Pos(c2.Pos()) + " and is not made afresh for each candidate"
+					}
+				})
+			default:
+				stale = "the identity map written at " + w.Pos(mu.Pos()) + " is neither made in the identity function nor a parameter of it"
+			}
 		})
+		r.Check(stale == "", rule, fnName(fn)+":identity-of-this-member-only", w.Pos(fn.Pos()),
+			"the map a member's identity is collected in starts empty for every candidate",
+			stale+": entries of an earlier candidate stand in for keys this candidate lacks, a keyed hunk can match a member that does not carry the key, and the nested change lands in the wrong object")
 		r.Check(bad == "", rule, fnName(fn)+":identity-is-a-projection", w.Pos(fn.Pos()),
 			fmt.Sprintf("every value entering the member's identity is loaded from the member itself (%d identity entries built here)", n),
 			"a value that does not come from the candidate object enters its identity (at "+bad+"): a keyed hunk can match a member that does not carry the key, and the nested change lands in the wrong object")
@@ -3378,10 +3431,73 @@ func ruleHunkRaw(w *World, r *Report, pkg *ssa.Package, tag string, fields ...st
 				"the hunk value does not contain the receiver as a "+rt+" view",
 				"the receiver is stored into the hunk as a "+rt+" view (at "+view+"): when the hunk is applied the target at that path is read as a list (no set marker follows), and a list never Equals a "+rt+" view — the diff of an array and a non-array does not apply to the document it was made from")
 		})
+		// ... nor hand that view to a package function that stores its argument into a hunk (the shared
+		// "replace the whole value" helper; seeded change C01-d)
+		kc := 0
+		allInstrs(fn, func(in ssa.Instruction) {
+			c, ok := in.(*ssa.Call)
+			if !ok {
+				return
+			}
+			g := staticCallee(c)
+			if g == nil || g.Blocks == nil || fnPkg(g) != pkg.Pkg || g == fn {
+				return
+			}
+			for i, a := range c.Call.Args {
+				mi, ok := a.(*ssa.MakeInterface)
+				if !ok || strip(mi.X) != ssa.Value(recv) || typeName(mi.X.Type()) != rt {
+					continue
+				}
+				if i >= len(g.Params) {
+					continue
+				}
+				kc++
+				n++
+				where := hunkStoreOfParam(w, g, i, isField, 0)
+				r.Check(where == "", rule, fmt.Sprintf("%s:view-handed-to-%s#%d", fnName(fn), g.Name(), kc), w.Pos(c.Pos()),
+					"the "+rt+" view handed to "+g.Name()+" does not end up in a hunk",
+					"the receiver is handed to "+g.Name()+" as a "+rt+" view and stored into a hunk there (at "+where+"): when the hunk is applied the target at that path is read as a list (no set marker follows), and a list never Equals a "+rt+" view — the diff of an array and a non-array does not apply to the document it was made from")
+			}
+		})
 	}
 	if n == 0 {
 		r.Ok(rule, tag+":hunk-values", "-", "no hunk value stores found in the set / multiset diffs: this rule makes no claim (not decided)")
 	}
+}
+
+// hunkStoreOfParam: position of a store into a hunk value field of g whose value derives from g's
+// i-th parameter (also through one further package function), or "".
+func hunkStoreOfParam(w *World, g *ssa.Function, i int, isField func(string) bool, depth int) string {
+	if depth > 2 || i >= len(g.Params) {
+		return ""
+	}
+	d := NewDeriv(w, g)
+	where := ""
+	allInstrs(g, func(in ssa.Instruction) {
+		switch x := in.(type) {
+		case *ssa.Store:
+			fa, ok := x.Addr.(*ssa.FieldAddr)
+			if !ok || !isField(fieldName(fa.X.Type(), fa.Field)) {
+				return
+			}
+			if d.Visited(x.Val)[g.Params[i]] {
+				where = w.Pos(x.Pos())
+			}
+		case *ssa.Call:
+			h := staticCallee(x)
+			if h == nil || h.Blocks == nil || fnPkg(h) != fnPkg(g) || h == g {
+				return
+			}
+			for j, a := range x.Call.Args {
+				if strip(a) == ssa.Value(g.Params[i]) && j < len(h.Params) {
+					if p := hunkStoreOfParam(w, h, j, isField, depth+1); p != "" {
+						where = p
+					}
+				}
+			}
+		}
+	})
+	return where
 }
 
 // ruleRootPath — R-ROOTPATH (C01, C07). Every exported Diff method starts the
@@ -3623,4 +3739,369 @@ func minLenOf(v ssa.Value, seen map[ssa.Value]bool) int64 {
 		return m
 	}
 	return 0
+}
+
+
+// cursorCellOfElem: v is list[load cell] (possibly boxed/converted); returns the cell.
+func cursorCellOfElem(v ssa.Value) ssa.Value {
+	v = strip(v)
+	ld, ok := v.(*ssa.UnOp)
+	if !ok || ld.Op != token.MUL {
+		return nil
+	}
+	ia, ok := ld.X.(*ssa.IndexAddr)
+	if !ok {
+		return nil
+	}
+	il, ok := stripInt(ia.Index).(*ssa.UnOp)
+	if !ok || il.Op != token.MUL {
+		return nil
+	}
+	if al, ok := closureCell(il.X).(*ssa.Alloc); ok {
+		return al
+	}
+	return nil
+}
+
+// appendArrayElems: the values of a variadic append's second argument when it is a fresh array literal.
+func appendArrayElems(c *ssa.Call) []ssa.Value {
+	if len(c.Call.Args) != 2 {
+		return nil
+	}
+	sl, ok := strip(c.Call.Args[1]).(*ssa.Slice)
+	if !ok {
+		return nil
+	}
+	al, ok := sl.X.(*ssa.Alloc)
+	if !ok {
+		return nil
+	}
+	var out []ssa.Value
+	for _, ref := range *al.Referrers() {
+		if ia, ok := ref.(*ssa.IndexAddr); ok {
+			for _, r2 := range *ia.Referrers() {
+				if st, ok := r2.(*ssa.Store); ok && st.Addr == ssa.Value(ia) {
+					out = append(out, st.Val)
+				}
+			}
+		}
+	}
+	return out
+}
+
+// cellsReadBy: the home function's cells a condition value reads, through local closures.
+func cellsReadBy(v ssa.Value, out map[ssa.Value]bool, seenFn map[*ssa.Function]bool, depth int) {
+	if depth > 8 || v == nil {
+		return
+	}
+	switch x := v.(type) {
+	case *ssa.UnOp:
+		if x.Op == token.MUL {
+			if al, ok := closureCell(x.X).(*ssa.Alloc); ok {
+				out[al] = true
+				return
+			}
+		}
+		cellsReadBy(x.X, out, seenFn, depth+1)
+	case *ssa.BinOp:
+		cellsReadBy(x.X, out, seenFn, depth+1)
+		cellsReadBy(x.Y, out, seenFn, depth+1)
+	case *ssa.Phi:
+		for _, e := range x.Edges {
+			cellsReadBy(e, out, seenFn, depth+1)
+		}
+	case *ssa.Convert:
+		cellsReadBy(x.X, out, seenFn, depth+1)
+	case *ssa.ChangeType:
+		cellsReadBy(x.X, out, seenFn, depth+1)
+	case *ssa.IndexAddr:
+		cellsReadBy(x.X, out, seenFn, depth+1)
+		cellsReadBy(x.Index, out, seenFn, depth+1)
+	case *ssa.Index:
+		cellsReadBy(x.X, out, seenFn, depth+1)
+		cellsReadBy(x.Index, out, seenFn, depth+1)
+	case *ssa.Slice:
+		cellsReadBy(x.X, out, seenFn, depth+1)
+		cellsReadBy(x.Low, out, seenFn, depth+1)
+		cellsReadBy(x.High, out, seenFn, depth+1)
+	case *ssa.MakeInterface:
+		cellsReadBy(x.X, out, seenFn, depth+1)
+	case *ssa.Call:
+		for _, a := range x.Call.Args {
+			cellsReadBy(a, out, seenFn, depth+1)
+		}
+		if cf := closureValue(x.Call.Value, 0); cf != nil && cf.Parent() != nil && !seenFn[cf] {
+			seenFn[cf] = true
+			allInstrs(cf, func(in ssa.Instruction) {
+				switch y := in.(type) {
+				case *ssa.UnOp:
+					if y.Op == token.MUL {
+						if al, ok := closureCell(y.X).(*ssa.Alloc); ok {
+							out[al] = true
+						}
+					}
+				case *ssa.Call:
+					cellsReadBy(y, out, seenFn, depth+1)
+				}
+			})
+		}
+	}
+}
+
+func oneSidedMoves(w *World, r *Report, wf *ssa.Function) {
+	const rule = "R-LCSDEP"
+	type move struct {
+		st   *ssa.Store
+		side string
+		cell ssa.Value
+	}
+	var moves []move
+	cells := map[string]map[ssa.Value]bool{"Remove": {}, "Add": {}}
+	undecided := false
+	for _, b := range wf.Blocks {
+		for _, in := range b.Instrs {
+			st, ok := in.(*ssa.Store)
+			if !ok {
+				continue
+			}
+			fa, ok := st.Addr.(*ssa.FieldAddr)
+			if !ok {
+				continue
+			}
+			name := fieldName(fa.X.Type(), fa.Field)
+			if name != "Remove" && name != "Add" {
+				continue
+			}
+			c, isApp := isBuiltinCall(strip(st.Val), "append")
+			if !isApp {
+				continue
+			}
+			elems := appendArrayElems(c)
+			if len(elems) != 1 {
+				continue
+			}
+			cell := cursorCellOfElem(elems[0])
+			if cell == nil {
+				undecided = true
+				continue
+			}
+			cells[name][cell] = true
+			moves = append(moves, move{st, name, cell})
+		}
+	}
+	key0 := fnName(wf) + ":one-sided-move"
+	if len(moves) == 0 {
+		return
+	}
+	if undecided || len(cells["Remove"]) != 1 || len(cells["Add"]) != 1 {
+		r.Ok(rule, key0, w.Pos(wf.Pos()), "the walk does not move list[cursor] elements with one cursor per side: this clause makes no claim (not decided)")
+		return
+	}
+	var cellOf = map[string]ssa.Value{}
+	for side, m := range cells {
+		for c := range m {
+			cellOf[side] = c
+		}
+	}
+	if cellOf["Remove"] == cellOf["Add"] {
+		r.Ok(rule, key0, w.Pos(wf.Pos()), "one cursor for both sides: this clause makes no claim (not decided)")
+		return
+	}
+	isCursorStore := func(in ssa.Instruction) bool {
+		st, ok := in.(*ssa.Store)
+		if !ok {
+			return false
+		}
+		c := closureCell(st.Addr)
+		return c == cellOf["Remove"] || c == cellOf["Add"]
+	}
+	// cursors stored inside closures: decline (R-CURSOR declines as well)
+	inClosure := false
+	withClosures(wf, func(f *ssa.Function) {
+		if f == wf {
+			return
+		}
+		allInstrs(f, func(in ssa.Instruction) {
+			if isCursorStore(in) {
+				inClosure = true
+			}
+		})
+	})
+	if inClosure {
+		r.Ok(rule, key0, w.Pos(wf.Pos()), "the cursors are advanced inside a closure: this clause makes no claim (not decided)")
+		return
+	}
+	dirty := map[*ssa.BasicBlock]bool{}
+	for _, b := range wf.Blocks {
+		for _, in := range b.Instrs {
+			if isCursorStore(in) {
+				dirty[b] = true
+			}
+		}
+	}
+	type br struct {
+		tb       *ssa.BasicBlock
+		cond     ssa.Value
+		tE, fE   Edge
+		reads    map[ssa.Value]bool
+		sameKind bool
+	}
+	var brs []br
+	for _, tb := range wf.Blocks {
+		cond, tE, fE, ok := branchEdges(tb)
+		if !ok {
+			continue
+		}
+		x := br{tb: tb, cond: cond, tE: tE, fE: fE, reads: map[ssa.Value]bool{}}
+		cellsReadBy(cond, x.reads, map[*ssa.Function]bool{}, 0)
+		if cc, isC := cond.(*ssa.Call); isC {
+			if sf := staticCallee(cc); sf != nil && w.helperIs(sf, "sameContainerType") {
+				x.sameKind = true
+			}
+		}
+		brs = append(brs, x)
+	}
+	n := map[string]int{}
+	for _, m := range moves {
+		n[m.side]++
+		key := fmt.Sprintf("%s#%s%d", key0, m.side, n[m.side])
+		other := cellOf["Add"]
+		if m.side == "Add" {
+			other = cellOf["Remove"]
+		}
+		b := m.st.Block()
+		why := ""
+		for _, x := range brs {
+			if x.sameKind {
+				continue
+			}
+			if x.reads[other] && !x.reads[m.cell] && edgeDominates(exhaustedEdge(x.cond, x.tE, x.fE), b) {
+				why = "behind a test of the other side's cursor only (" + w.Pos(x.cond.Pos()) + ")"
+				break
+			}
+		}
+		if why == "" {
+			for _, x := range brs {
+				if !x.sameKind || !edgeDominates(x.fE, b) {
+					continue
+				}
+				// is a cursor stored on some path from the false outcome to this append (not through the test again)?
+				seen := map[*ssa.BasicBlock]bool{x.tb: true}
+				work := []*ssa.BasicBlock{x.fE.To()}
+				stale := false
+				for len(work) > 0 && !stale {
+					y := work[len(work)-1]
+					work = work[:len(work)-1]
+					if seen[y] {
+						continue
+					}
+					seen[y] = true
+					if y == b {
+						for _, in := range b.Instrs {
+							if in == ssa.Instruction(m.st) {
+								break
+							}
+							if isCursorStore(in) {
+								stale = true
+							}
+						}
+						if dirty[b] {
+							// leaving b after a cursor store and coming back to it
+							rs := map[*ssa.BasicBlock]bool{x.tb: true}
+							ws := append([]*ssa.BasicBlock{}, b.Succs...)
+							for len(ws) > 0 {
+								z := ws[len(ws)-1]
+								ws = ws[:len(ws)-1]
+								if rs[z] {
+									continue
+								}
+								rs[z] = true
+								if z == b {
+									stale = true
+									break
+								}
+								ws = append(ws, z.Succs...)
+							}
+						}
+						continue
+					}
+					if dirty[y] {
+						// can b be reached from here without meeting the test again?
+						rs := map[*ssa.BasicBlock]bool{x.tb: true}
+						ws := append([]*ssa.BasicBlock{}, y.Succs...)
+						for len(ws) > 0 {
+							z := ws[len(ws)-1]
+							ws = ws[:len(ws)-1]
+							if rs[z] {
+								continue
+							}
+							rs[z] = true
+							if z == b {
+								stale = true
+								break
+							}
+							ws = append(ws, z.Succs...)
+						}
+					}
+					work = append(work, y.Succs...)
+				}
+				if !stale {
+					why = "behind the false outcome of the same-kind test for the cursors as they stand"
+					break
+				}
+			}
+		}
+		r.Check(why != "", rule, key, w.Pos(m.st.Pos()),
+			"an element is moved into "+m.side+" "+why,
+			"list[cursor] is moved into "+m.side+" where neither the other side is known to have nothing to pair it with (no dominating test of the other cursor alone) nor the same-kind test has answered false for the cursors as they stand (a cursor is advanced between that test and this append, or there is no such test): a same-kind container standing at the same position further on is replaced wholesale instead of being diffed recursively")
+	}
+}
+
+
+// exhaustedEdge: the outcome of a cursor test on which the tested side has nothing (more) to offer at
+// this position: the true outcome of a predicate call (endX(), atCommonX()) and of `cursor == n`,
+// `cursor >= n`, `cursor > n`; the false outcome of `cursor != n`, `cursor < n`, `cursor <= n`
+// (mirrored when the cursor stands on the right).
+func exhaustedEdge(cond ssa.Value, tE, fE Edge) Edge {
+	bo, ok := cond.(*ssa.BinOp)
+	if !ok {
+		return tE
+	}
+	op := bo.Op
+	left := map[ssa.Value]bool{}
+	cellsReadBy(bo.X, left, map[*ssa.Function]bool{}, 0)
+	if len(left) == 0 {
+		op = swapOp(op)
+	}
+	switch op {
+	case token.EQL, token.GEQ, token.GTR:
+		return tE
+	}
+	return fE
+}
+
+
+// freshMapValue: v is a map made here and now: a make/literal, or the result of a package function all
+// of whose returns are.
+func freshMapValue(v ssa.Value, depth int) bool {
+	switch x := strip(v).(type) {
+	case *ssa.MakeMap:
+		return true
+	case *ssa.Call:
+		g := staticCallee(x)
+		if g == nil || g.Blocks == nil || depth > 2 {
+			return false
+		}
+		rets := returnsOf(g)
+		if len(rets) == 0 {
+			return false
+		}
+		for _, ret := range rets {
+			if len(ret.Results) != 1 || !freshMapValue(ret.Results[0], depth+1) {
+				return false
+			}
+		}
+		return true
+	}
+	return false
 }
